@@ -742,7 +742,7 @@ func ruleCloseWaitsEveryPath(c *Ctx, r *R) {
 			if cc == nil {
 				return 0, false
 			}
-			if cal := cc.StaticCallee(); cal != nil && cal.Name() == "Wait" && cal.Pkg != nil && (cal.Pkg.Pkg.Path() == "sync" || strings.HasSuffix(cal.Pkg.Pkg.Path(), "errgroup")) {
+			if cal := staticCallee(cc); cal != nil && cal.Name() == "Wait" && cal.Pkg != nil && (cal.Pkg.Pkg.Path() == "sync" || strings.HasSuffix(cal.Pkg.Pkg.Path(), "errgroup")) {
 				return ss(1), true
 			}
 			return 0, false
@@ -929,13 +929,23 @@ func ruleFreshBatchAfterHandover(c *Ctx, r *R) {
 				if !a.send || fieldOfChan(a.ch) != "batchC" {
 					continue
 				}
-				bv := loadVar(sel.States[i].Send)
+				bv := loadVar(throughLiteralParam(sel.States[i].Send))
 				if !bv.ok() {
 					continue
 				}
+				// the hand-over lives in a local closure that is given the batch (deliver(batch)): what follows it is what follows
+				// that call in the closure's caller
+				var site *ssa.Call
+				if p, isP := sel.States[i].Send.(*ssa.Parameter); isP && literalCallArg(p) != nil {
+					site = literalCallSite(p.Parent())
+				}
 				// stores to the batch variable that can follow this hand-over before the next append
 				for _, st := range storesToVar(bv) {
-					if st.Parent() != g || !(st.Block() == a.body || (a.body != nil && reaches(a.body, st.Block())) || reaches(sel.Block(), st.Block())) {
+					if site != nil {
+						if st.Parent() != site.Parent() || !((st.Block() == site.Block() && idxIn(st) > idxIn(site)) || reaches(site.Block(), st.Block())) {
+							continue
+						}
+					} else if st.Parent() != g || !(st.Block() == a.body || (a.body != nil && reaches(a.body, st.Block())) || reaches(sel.Block(), st.Block())) {
 						continue
 					}
 					n++
@@ -1640,3 +1650,40 @@ var _ = late(func() {
 	properties["C02"].Rules = append(properties["C02"].Rules,
 		&Rule{ID: "C02.children-one-more", Floor: 4, Clause: "same rule as C03.children-one-more: a node with n keys has n+1 children wherever keys and children are shifted together - an iterator that reaches a node whose last child pointer was dropped dereferences nil or skips the subtree's keys", Run: ruleChildrenOneMore})
 })
+
+// literalCallSite: the one call of function literal lit among the functions of its family (see literalCallArg), nil otherwise.
+func literalCallSite(lit *ssa.Function) *ssa.Call {
+	if lit == nil || lit.Parent() == nil {
+		return nil
+	}
+	var site *ssa.Call
+	n := 0
+	for _, host := range withAnon(rootFn(lit)) {
+		if host == lit {
+			continue
+		}
+		instrs(host, func(_ *ssa.BasicBlock, _ int, in ssa.Instruction) {
+			call, ok := in.(*ssa.Call)
+			if !ok || call.Call.IsInvoke() {
+				return
+			}
+			var f *ssa.Function
+			switch v := call.Call.Value.(type) {
+			case *ssa.MakeClosure:
+				f, _ = v.Fn.(*ssa.Function)
+			case *ssa.Function:
+				f = v
+			case *ssa.UnOp:
+				f = resolveFuncValue(v, 0)
+			}
+			if f == lit {
+				site = call
+				n++
+			}
+		})
+	}
+	if n != 1 {
+		return nil
+	}
+	return site
+}
